@@ -4,11 +4,11 @@ package props
 
 import (
 	"bytes"
-	"os/exec"
 	"encoding/json"
 	"fmt"
 	"io"
 	"os"
+	"os/exec"
 	"path/filepath"
 	"reflect"
 	"regexp"
@@ -34,14 +34,17 @@ type TreeFile struct {
 
 // C06Extra is the environment and option part of a C06 case.
 type C06Extra struct {
-	Dir      string     `json:"dir"`
-	Files    []TreeFile `json:"files"`
-	GOROOT   string     `json:"goroot"`
-	GOPATHs  []string   `json:"gopaths"`
-	Guess    bool       `json:"guess_paths"`
-	Analyze  bool       `json:"analyze_sources"`
-	Modes    []string   `json:"map_orders"` // "mode@seed"
-	Flags    []string   `json:"pp_flags,omitempty"`
+	Dir     string     `json:"dir"`
+	Files   []TreeFile `json:"files"`
+	GOROOT  string     `json:"goroot"`
+	GOPATHs []string   `json:"gopaths"`
+	Guess   bool       `json:"guess_paths"`
+	Analyze bool       `json:"analyze_sources"`
+	Modes   []string   `json:"map_orders"` // "mode@seed"
+	Flags   []string   `json:"pp_flags,omitempty"`
+	// Others are further inputs handled by the same process, over the same
+	// tree, between two executions of the case's own input (history).
+	Others []*gen.Doc `json:"other_inputs,omitempty"`
 }
 
 var reCreated = regexp.MustCompile(`Created on [^<]*`)
@@ -240,7 +243,17 @@ func c06Check(c *Case, ex *C06Extra, cov *Cov) []*Violation {
 		}
 	}
 	// history independence: the first order again, after everything else ran
+	// (the other map orders of this input, and other inputs over the same tree)
 	if len(ex.Modes) > 0 {
+		for _, od := range ex.Others {
+			ob := gen.Render(od).Bytes
+			o := c06Exec(ob, ex, c.NameArgs, ex.Modes[0])
+			if cov != nil {
+				cov.Evaluations++
+				cov.AddDigest(o.digest())
+				cov.Probe("history:other-input-between")
+			}
+		}
 		again := c06Exec(b, ex, c.NameArgs, ex.Modes[0])
 		for _, v := range c06Compare(c, &ref, &again, ex.Modes[0], ex.Modes[0]+" (repeated after the other executions)") {
 			v.Clause = "C06.history"
@@ -274,6 +287,11 @@ func genTree(r *core.Rng, dir string) (*C06Extra, []string) {
 	} else {
 		add(g1+"/src/p/q.go", goSrc)
 		remote = append(remote, "/r/src/p/q.go")
+	}
+	if r.Chance(0.5) {
+		// a remote GOPATH whose root is the remote GOROOT (code checked out under GOROOT/src)
+		add(g1+"/src/zz/w.go", goSrc)
+		remote = append(remote, "/remote/goroot/src/zz/w.go")
 	}
 	if r.Chance(0.5) {
 		add(g2+"/pkg/mod/github.com/x/y@v1.0.0/z.go", goSrc)
@@ -336,7 +354,7 @@ func RunC06(r *core.Rng, run, seed uint64, tier string, cov *Cov) []*Violation {
 	ex.Modes = c06Modes(r, 3)
 	var doc *gen.Doc
 	if r.Chance(0.85) {
-		doc = gen.GenerateSimilar(r, gen.SimilarCfg{Groups: r.Range(1, 5), MaxPerGrp: []int{1, 2, 4, 8}[r.Intn(4)], Files: files, Shuffle: r.Chance(0.5)})
+		doc = gen.GenerateSimilar(r, gen.SimilarCfg{Groups: r.Range(1, 5), MaxPerGrp: []int{1, 2, 4, 8}[r.Intn(4)], Files: files, Shuffle: r.Chance(0.5), DupIDs: r.Chance(0.15)})
 	} else {
 		cfg := gen.DefaultCfg(r)
 		cfg.MinDumps, cfg.MaxDumps = 1, 1
@@ -344,12 +362,38 @@ func RunC06(r *core.Rng, run, seed uint64, tier string, cov *Cov) []*Violation {
 		doc = gen.Generate(r, cfg)
 	}
 	nameArgs := r.Chance(0.7)
+	// further inputs over the same tree, each using few of its files, handled
+	// by the same process in between (cross-input history)
+	if r.Chance(0.6) {
+		for i, n := 0, r.Range(1, 2); i < n; i++ {
+			sub := files
+			if len(files) > 2 {
+				p := r.Perm(len(files))
+				sub = []string{files[p[0]], files[p[1]]}
+			}
+			ex.Others = append(ex.Others, gen.GenerateSimilar(r, gen.SimilarCfg{Groups: r.Range(1, 2), MaxPerGrp: 2, Files: sub}))
+		}
+	}
 	exj, _ := json.Marshal(ex)
 	c := &Case{Prop: "C06", Run: run, Seed: seed, Mode: "mapsim", Doc: doc, NameArgs: nameArgs, Extra: exj}
 	b := gen.Render(doc).Bytes
 	ih := core.Hash(b, exj)
 	cov.Inputs[ih]++
 	vs := c06Check(c, ex, cov)
+	// and the other way round: each other input, with the main one in between
+	for i, od := range ex.Others {
+		ex2 := *ex
+		ex2.Modes = ex.Modes[:2]
+		ex2.Others = []*gen.Doc{doc}
+		for j, x := range ex.Others {
+			if j != i {
+				ex2.Others = append(ex2.Others, x)
+			}
+		}
+		ex2j, _ := json.Marshal(&ex2)
+		c2 := &Case{Prop: "C06", Run: run, Seed: seed, Mode: "mapsim", Doc: od, NameArgs: nameArgs, Extra: ex2j}
+		vs = append(vs, c06Check(c2, &ex2, cov)...)
+	}
 	// non-trivial: at least one range-over-map iterated over >= 2 entries
 	st := stack.VerifMapStats()
 	multi := 0
@@ -375,12 +419,13 @@ func init() {
 		Run:   RunC06,
 		Check: CheckC06,
 		Quick: 1200, Thorough: 60000,
-		Rule: "one evaluation = ScanSnapshot + Aggregate at all 4 similarity levels + both ToHTML renderings of one generated dump (groups of goroutines with equal frames and differing arguments/sleep/lock so that buckets merge and tie; optionally a per-run directory tree with overlapping GOPATH roots and nested go.mod roots and GuessPaths on) under one simulator-chosen map iteration order; per input the orders sorted, reverse, two rotations, three seeded permutations (each with its own insertion-visit coins) and the runtime's own order are compared, then the first order again (history); distinct_nontrivial = distinct (input, order) pairs in runs where some range-over-map iterated over >= 2 entries; a sample of runs is re-executed in fresh processes (other GOMAXPROCS) and the result digests compared; the pp binary built from the same overlay is compared byte-wise across orders in the ppmap stage",
-		Assumptions: []string{"map iteration order is controlled by a build-time rewrite of every range-over-map in package stack (cmd/maprewrite, go build -overlay); /repo itself is not modified", "the directory tree is fixed environment, not a fault", "the HTML lines 'Created on' and 'GOMAXPROCS' are masked"},
-		Real:        []string{"stack.ScanSnapshot (incl. guessPaths/findRoots/updateLocations, nameArguments, augment)", "Snapshot.Aggregate", "Aggregated.ToHTML / Snapshot.ToHTML", "pp binary (ppmap stage)"},
-		Stubs:       []string{"map iteration order (verifIter)", "directory tree built per run"},
-		ShrinkBudget: 600,
-		Post:         postC06,
+		Rule:            "one evaluation = ScanSnapshot + Aggregate at all 4 similarity levels + both ToHTML renderings of one generated dump (groups of goroutines with equal frames and differing arguments/sleep/lock so that buckets merge and tie; optionally a per-run directory tree with overlapping GOPATH roots and nested go.mod roots and GuessPaths on) under one simulator-chosen map iteration order; per input the orders sorted, reverse, two rotations, three seeded permutations (each with its own insertion-visit coins) and the runtime's own order are compared, then the first order again (history); distinct_nontrivial = distinct (input, order) pairs in runs where some range-over-map iterated over >= 2 entries; a sample of runs is re-executed in fresh processes (other GOMAXPROCS) and the result digests compared; the pp binary built from the same overlay is compared byte-wise across orders in the ppmap stage",
+		Assumptions:     []string{"map iteration order is controlled by a build-time rewrite of every range-over-map in package stack (cmd/maprewrite, go build -overlay); /repo itself is not modified", "the directory tree is fixed environment, not a fault", "the HTML lines 'Created on' and 'GOMAXPROCS' are masked"},
+		Real:            []string{"stack.ScanSnapshot (incl. guessPaths/findRoots/updateLocations, nameArguments, augment)", "Snapshot.Aggregate", "Aggregated.ToHTML / Snapshot.ToHTML", "pp binary (ppmap stage)"},
+		Stubs:           []string{"map iteration order (verifIter)", "directory tree built per run"},
+		ShrinkBudget:    600,
+		Post:            postC06,
+		IsolationClause: "C06.process",
 	})
 }
 
